@@ -2,7 +2,8 @@
 
 Monitors: postconditions on the real `is_ppt`, `is_generalized_ppt`, `check_reduction_witness`, `check_swap_witness`,
 `get_negativity`, `get_concurrence_2qubit`, `get_eof_2qubit`, `get_gme_2qubit`, `is_ABk_symmetric_ext` (use_ppt x use_boson)
-and `get_ppt_boundary`. Every contract is conditional on a ghost label "certified separable for this dim tuple" kept in a
+and `get_ppt_boundary`, plus the less prominent consumers `get_generalized_ppt_boundary`, `get_concurrence_pure` / `get_eof_pure` (product
+vectors), `is_ABk_symmetric_ext_naive`, `get_linear_entropy_entanglement_ppt`, `get_ppt_ree`, `get_ABk_symmetric_extension_ree`. Every contract is conditional on a ghost label "certified separable for this dim tuple" kept in a
 content-digest registry. Labels are issued by the *producers* only after the reference (vmon/ref/sepcert.py) has re-verified
 the certificate: the explicit decomposition (weights on the simplex, unit product vectors, entry-wise equality with the
 state). Producers: the harness' own mixtures (random / structured / hostile), numqi's `rand_separable_dm` (local factors
@@ -34,7 +35,14 @@ RULE = ('cases = (dim tuple, separable state): convex mixtures of 1..2D product 
         'its dim tuples / SDP configurations a second time in another order. Every third state is also asked through every '
         'documented calling form (defaults passed explicitly, all positional in docstring order, dim as list / ndarray / numpy '
         'ints, flags as 0/1 / numpy booleans); rank-deficient mixtures of 1..D-1 generic product vectors are a state kind of '
-        'their own.')
+        'their own. Shard regime*: the other party orders (4,2),(3,2,2),(2,2,3); states at distance 1e-4..1e-10 from I/D, weights graded '
+        'over 15 decades, a dominant pure product term plus terms of weight 1e-6..1e-15; certified states handed over with complex '
+        'non-Hermitian rounding noise 1e-14..1e-16 per entry (tolerance of the concurrence derived from that amplitude); batches with one '
+        'degenerate item and batches of one (batched == per item); product vectors (tall / wide / a party of dimension 1) through '
+        'get_concurrence_pure / get_eof_pure; every state also through get_generalized_ppt_boundary (>= its own norm - 3e-5), and a few '
+        'through is_ABk_symmetric_ext_naive, get_linear_entropy_entanglement_ppt, get_ppt_ree, get_ABk_symmetric_extension_ree (= 0 up '
+        'to 1e-4 when the solver says optimal). SeparableDensityMatrix is also evaluated at parameter scales 1e-4 / 1e-8, with autograd '
+        'recording / frozen parameters (same value) and as a deepcopy with new parameters (independent of the original).')
 EXHAUSTIVE = {'quick': False, 'thorough': False}
 EXHAUSTIVE_DOMAINS = {'quick': [], 'thorough': []}
 ASSUMPTIONS = [
@@ -61,11 +69,18 @@ DECIDING = ['is_ppt', 'is_generalized_ppt', 'check_reduction_witness', 'check_sw
             'labelled/is_ABk_symmetric_ext', 'labelled/get_ppt_boundary',
             'producer/rand_separable_dm', 'producer/SeparableDensityMatrix.forward', 'producer/harness-mixture',
             'producer/named-family', 'argument-unchanged', 'history/work-buffer', 'history/result-edited', 'input/float64',
-            'input/complex128/not-c-contiguous', 'order/second-pass-reversed', 'order/first-config-again', 'api-surface']
+            'input/complex128/not-c-contiguous', 'order/second-pass-reversed', 'order/first-config-again', 'api-surface',
+            # lesson 3: regimes, shapes, less prominent consumers, lifecycle (all reached in both tiers: shards regime*, producers*)
+            'labelled/get_generalized_ppt_boundary', 'labelled/get_concurrence_pure', 'labelled/get_eof_pure',
+            'labelled/is_ABk_symmetric_ext_naive', 'labelled/get_linear_entropy_entanglement_ppt', 'labelled/get_ppt_ree',
+            'labelled/get_ABk_symmetric_extension_ree', 'regime/near-max-mixed', 'regime/graded-weights', 'regime/dominant-term',
+            'regime/rounding-noise', 'shape/party-order-variants', 'batch/one-degenerate-item', 'lifecycle/SeparableDensityMatrix']
 
 ZERO = 1e-7
 BIP = [(2, 2), (2, 3), (3, 2), (3, 3), (2, 4)]
 MULTI = [(2, 2, 2), (2, 3, 2), (2, 2, 2, 2)]
+REGIME_KINDS = ['near-max-mixed', 'graded-weights', 'dominant-term']
+EXTRA_DIMS = [(4, 2), (3, 2, 2), (2, 2, 3)]
 KINDS = ['random', 'random', 'rank-deficient', 'random-real', 'few-terms', 'basis', 'repeated', 'near-parallel', 'near-parallel-pair',
          'pure-product', 'tiny-weights', 'max-mixed', 'full-rank', 'rank-deficient']
 
@@ -93,7 +108,8 @@ def shards(tier, seed):
         ret += [{'name': 'closed-22', 'dims_list': [[2, 2]], 'n': 400},
                 {'name': 'closed-bip', 'dims_list': [[2, 3], [3, 2], [3, 3], [2, 4]], 'n': 100},
                 {'name': 'closed-multi', 'dims_list': [[2, 2, 2], [2, 3, 2], [2, 2, 2, 2]], 'n': 100},
-                {'name': 'producers', 'n': 12}]
+                {'name': 'producers', 'n': 12},
+                {'name': 'regime', 'n': 28, 'reps': 3, 'nsdp': 4, 'sdp_dims': [[3, 2], [2, 3], [2, 2]], 'budget_s': 150}]
     else:
         B = 420
         for dims, cfgs in [((3, 3), [[2, 1, 0]]), ((3, 3), [[2, 0, 0], [1, 1, 0]]), ((3, 3), [[2, 0, 1], [2, 1, 1]]),
@@ -115,6 +131,7 @@ def shards(tier, seed):
         for i, d in enumerate([[2, 2, 2], [2, 3, 2], [2, 2, 2, 2]]):
             ret.append({'name': f'closed-multi-{i}', 'dims_list': [d], 'n': 1500})
         ret += [{'name': f'producers-{i}', 'n': 60} for i in range(2)]
+        ret += [{'name': f'regime-{i}', 'n': 300, 'reps': 30, 'nsdp': 12, 'sdp_dims': [[2, 2], [2, 3], [3, 2]], 'budget_s': B} for i in range(2)]
     return ret
 
 
@@ -134,7 +151,7 @@ class Registry:
         self.rejected = 0
         self.min_pt_eig = 0.0
 
-    def issue(self, rho, cert, producer):
+    def issue(self, rho, cert, producer, extra=None):
         """verify the certificate with the reference; on success label rho for cert.dims and (for decompositions) for every
         grouping of adjacent parties. Returns True when the label was issued."""
         rho = to_numpy(rho)
@@ -154,7 +171,7 @@ class Registry:
         if m < -1e-12:
             raise RuntimeError(f'reference inconsistency: verified separable state has PT eigenvalue {m}')
         dg = state_digest(rho2)
-        desc = dict(cert.describe(), producer=producer)
+        desc = dict(cert.describe(), producer=producer, **(extra or {}))
         self.labels[(dg, cert.dims)] = desc
         if cert.kind == 'decomposition' and len(cert.dims) > 2:
             for cd, blocks in R.coarsenings(cert.dims):
@@ -309,8 +326,12 @@ def install(ctx, numqi, reg):
             fin = ctx.check(math.isfinite(v), f'{name}/not-finite', f'{name} is not finite on a certified separable state', wit,
                             point='labelled/' + name)
             if fin:
-                note_worst(name, v)
-                ctx.check(abs(v) <= ZERO, f'{name}/nonzero-on-separable',
+                # a state handed over with entry-wise rounding noise of amplitude a (label 'input_noise') sits at distance a from
+                # the boundary state it approximates; the concurrence is a square root there: tolerance from the INPUT, 4*sqrt(a)
+                tol = max(ZERO, 4 * math.sqrt(float(lab.get('input_noise', 0.0)))) if name == 'get_concurrence_2qubit' else ZERO
+                if 'input_noise' not in lab:
+                    note_worst(name, v)
+                ctx.check(abs(v) <= tol, f'{name}/nonzero-on-separable',
                           f'{name} is not zero (|v|>1e-7) on a certified separable state', wit)
         return post
 
@@ -419,6 +440,162 @@ def install(ctx, numqi, reg):
                        'rho': r}, point='labelled/is_ABk_symmetric_ext')
 
     ctx.attach(E.symext, 'is_ABk_symmetric_ext', pre=pre_symext, post=post_symext, point='is_ABk_symmetric_ext')
+
+    # ---------------- less prominent consumers of the same machinery (lesson 3d)
+    # (i) get_generalized_ppt_boundary: the generalized-PPT set is convex and contains I/D, so the boundary on the ray through a
+    # certified separable state lies at or beyond that state (root finder: xtol=1e-5, observed shortfall 3.2e-6)
+    def post_gppt_boundary(c):
+        if c.exc is not None:
+            return
+        dm = unchanged(c, 'get_generalized_ppt_boundary', 'dm')
+        dims = dims_arg(c, None)
+        if dims is None or dm.ndim != 2:
+            return
+        lab = reg.lookup(dm, dims)
+        if lab is None:
+            ctx.hit('unlabelled/get_generalized_ppt_boundary')
+            return
+        thr, xtol = c.arg(2, 'threshold', 1e-10), c.arg(3, 'xtol', 1e-5)
+        if not (thr >= 1e-12 and xtol <= 1e-5):
+            ctx.hit('non-default-threshold/get_generalized_ppt_boundary')
+            return
+        nrm = R.gellmann_norm(dm)
+        if nrm < 1e-9:
+            ctx.inconclusive('get_generalized_ppt_boundary/direction-undefined (maximally mixed)')
+            return
+        try:
+            v = float(np.asarray(c.result, dtype=np.float64).reshape(()))
+        except Exception:
+            ctx.check(False, 'get_generalized_ppt_boundary/not-a-real-scalar', 'get_generalized_ppt_boundary did not return a real scalar',
+                      {'got': repr(c.result)[:200]}, point='labelled/get_generalized_ppt_boundary')
+            return
+        wit = lambda: {'dims': list(dims), 'label': lab, 'beta': v, 'norm_of_state': nrm, 'rho': dm}
+        if ctx.check(math.isfinite(v), 'get_generalized_ppt_boundary/not-finite', 'get_generalized_ppt_boundary not finite on a certified separable state',
+                     wit, point='labelled/get_generalized_ppt_boundary'):
+            worst['generalized_ppt_boundary_max_shortfall'] = max(worst.get('generalized_ppt_boundary_max_shortfall', -1.0), nrm - v)
+            ctx.check(v >= nrm - 3e-5, 'get_generalized_ppt_boundary/separable-state-outside',
+                      'a certified separable state lies beyond the generalized-PPT boundary of its own ray', wit)
+
+    ctx.attach(E.ppt, 'get_generalized_ppt_boundary', pre=snapshot('dm'), post=post_gppt_boundary, point='get_generalized_ppt_boundary')
+
+    # (ii) pure-state measures on PRODUCT vectors (label: the reference's own SVD finds Schmidt rank one). get_concurrence_pure is
+    # sqrt(2(1-purity)): a purity error of k ulp shows as sqrt(2k eps); the tolerance is derived from the input's normalisation
+    def pure_contract(name):
+        def post(c):
+            if c.exc is not None:
+                return
+            psi = unchanged(c, name, 'psi')
+            if psi.ndim != 2 or psi.size == 0 or not np.all(np.isfinite(psi)):
+                return
+            sv = np.linalg.svd(psi.astype(np.complex128), compute_uv=False)
+            dev = abs(1.0 - float((sv**2).sum())**2)
+            if dev > 4e-15 or (sv.shape[0] > 1 and sv[1] > 1e-13):
+                ctx.hit('unlabelled/' + name)
+                return
+            if name == 'get_eof_pure' and not (1e-12 <= c.arg(1, 'eps', 1e-10) <= 1e-8):
+                ctx.hit('non-default-threshold/' + name)
+                return
+            tol = math.sqrt(2 * (dev + 32 * 2.220446049250313e-16)) if name == 'get_concurrence_pure' else ZERO
+            try:
+                v = float(np.asarray(c.result, dtype=np.float64).reshape(()))
+            except Exception:
+                ctx.check(False, f'{name}/not-a-real-scalar', f'{name} did not return a real scalar', {'got': repr(c.result)[:200]},
+                          point='labelled/' + name)
+                return
+            wit = lambda: {'shape': list(psi.shape), 'dtype': str(psi.dtype), 'value': repr(v), 'tolerance': tol, 'psi': psi}
+            if ctx.check(math.isfinite(v), f'{name}/not-finite', f'{name} is not finite on a product vector', wit, point='labelled/' + name):
+                note_worst(name, v)
+                ctx.check(abs(v) <= tol, f'{name}/nonzero-on-product-vector', f'{name} is not zero on a product vector', wit)
+        return post
+
+    ctx.attach(E.eof, 'get_concurrence_pure', pre=snapshot('psi'), post=pure_contract('get_concurrence_pure'), point='get_concurrence_pure')
+    ctx.attach(E.eof, 'get_eof_pure', pre=snapshot('psi'), post=pure_contract('get_eof_pure'), point='get_eof_pure')
+
+    # (iii) the naive (full-space) symmetric-extension SDP
+    def post_naive(c):
+        if c.exc is not None:
+            return
+        rho = unchanged(c, 'is_ABk_symmetric_ext_naive', 'rho')
+        dims = dims_arg(c, None)
+        if dims is None or len(dims) != 2 or rho.ndim != 2:
+            return
+        lab = reg.lookup(rho, dims)
+        if lab is None:
+            ctx.hit('unlabelled/is_ABk_symmetric_ext_naive')
+            return
+        entries = slog[c.snap['n']:]
+        status = entries[-1]['status'] if entries else None
+        res = c.result
+        ans = res[0] if isinstance(res, tuple) and len(res) else res
+        if isinstance(ans, (bool, np.bool_)) and bool(ans):
+            ctx.check(True, 'is_ABk_symmetric_ext_naive/rejects-separable', '', point='labelled/is_ABk_symmetric_ext_naive')
+            return
+        if status is not None and status != 'infeasible':
+            ctx.inconclusive(f'sdp-status:{status}')
+            return
+        ctx.check(False, 'is_ABk_symmetric_ext_naive/rejects-separable',
+                  f'is_ABk_symmetric_ext_naive answered "no extension" ({ans!r}, solver status {status}) for a certified separable state',
+                  {'dims': list(dims), 'kext': c.arg(2, 'kext'), 'index_kind': c.arg(3, 'index_kind', '2d'), 'label': lab, 'rho': rho},
+                  point='labelled/is_ABk_symmetric_ext_naive')
+
+    ctx.attach(E.symext, 'is_ABk_symmetric_ext_naive', pre=pre_symext, post=post_naive, point='is_ABk_symmetric_ext_naive')
+
+    # (iv) SDP measures that vanish on the PPT set / on the k-extendible set, hence on separable states (solver slack 1e-4, DESIGN 3)
+    def sdp_measure_contract(name, get_dims, defaults_ok):
+        def post(c):
+            if c.exc is not None:
+                return
+            rho = unchanged(c, name, 'rho')
+            dims = get_dims(c)
+            if dims is None or rho.ndim not in (2, 3) or not defaults_ok(c):
+                return
+            D = dims[0] * dims[1]
+            if rho.shape[-2:] != (D, D):
+                return
+            items = rho.reshape(-1, D, D)
+            try:
+                vals = np.asarray(c.result, dtype=np.float64).reshape(-1)
+            except Exception:
+                vals = np.zeros(0)
+            entries = slog[c.snap['n']:]
+            for i, r in enumerate(items):
+                lab = reg.lookup(r, dims)
+                if lab is None:
+                    ctx.hit('unlabelled/' + name)
+                    continue
+                if vals.shape[0] != items.shape[0]:
+                    ctx.check(False, f'{name}/shape', f'{name}: not one value per state', {'in': rho.shape}, point='labelled/' + name)
+                    return
+                status = entries[i]['status'] if len(entries) == items.shape[0] else None
+                v = float(vals[i])
+                if status != 'optimal' or v != v:
+                    ctx.inconclusive(f'sdp-status:{status}')
+                    continue
+                note_worst(name, v)
+                ctx.check(math.isfinite(v) and abs(v) <= 1e-4, f'{name}/nonzero-on-separable',
+                          f'{name} is not zero (|v|>1e-4, solver status optimal) on a certified separable state',
+                          lambda: {'dims': list(dims), 'label': lab, 'value': repr(v), 'rho': r}, point='labelled/' + name)
+        return post
+
+    def dims_two(c):
+        d = dims_arg(c, None)
+        return d if d is not None and len(d) == 2 else None
+
+    def dims_ab(c):
+        try:
+            return (int(c.arg(1, 'dimA')), int(c.arg(2, 'dimB')))
+        except Exception:
+            return None
+
+    no_info = lambda i: (lambda c: not bool(c.arg(i, 'return_info', False)))
+    ctx.attach(E.measure, 'get_linear_entropy_entanglement_ppt', pre=pre_symext, point='get_linear_entropy_entanglement_ppt',
+               post=sdp_measure_contract('get_linear_entropy_entanglement_ppt', dims_two, no_info(3)))
+    ctx.attach(E.ppt, 'get_ppt_ree', pre=pre_symext, point='get_ppt_ree',
+               post=sdp_measure_contract('get_ppt_ree', dims_ab, lambda c: not bool(c.arg(3, 'return_info', False))
+                                         and c.arg(4, 'sqrt_order', 3) == 3 and c.arg(5, 'pade_order', 3) == 3))
+    ctx.attach(E.symext, 'get_ABk_symmetric_extension_ree', pre=pre_symext, point='get_ABk_symmetric_extension_ree',
+               post=sdp_measure_contract('get_ABk_symmetric_extension_ree', dims_two, lambda c: not bool(c.arg(5, 'return_info', False))
+                                         and c.arg(6, 'sqrt_order', 3) == 3 and c.arg(7, 'pade_order', 3) == 3))
 
     # ---------------- producers inside numqi
     rec = {'on': False, 'haar': [], 'dm': []}
@@ -547,6 +724,21 @@ def gen_cert(rng, dims, kind):
         return R.cert_from_terms(dims, w, [rv() for _ in range(n)])
     if kind == 'max-mixed':
         return R.product_basis_cert(dims)
+    if kind == 'near-max-mixed':  # at Gell-Mann distance ~1e-4..1e-10 from I/D (cancellation in every norm of rho - I/D)
+        base = gen_cert(rng, dims, ['random', 'pure-product', 'rank-deficient', 'basis'][int(rng.integers(4))])
+        t = 10.0**(-rng.uniform(4, 10))
+        basis = R.product_basis_cert(dims)
+        return R.Certificate(dims, np.concatenate([t * base.weights, (1 - t) * basis.weights]),
+                             [np.concatenate([a, b]) for a, b in zip(base.vectors, basis.vectors)])
+    if kind == 'graded-weights':  # NEARLY rank-deficient: weights spread over 15 decades
+        n = int(rng.integers(2, 2 * D + 1))
+        w = 10.0**(-rng.uniform(0, 15, size=n))
+        w[0] = 1.0
+        return R.cert_from_terms(dims, w, [rv() for _ in range(n)])
+    if kind == 'dominant-term':  # (1-x)|ab><ab| + x|cd><cd| (+ y|ef><ef|), x,y in 1e-6..1e-15: within rounding distance of a pure product state
+        n = int(rng.integers(2, 4))
+        w = np.concatenate([[1.0], 10.0**(-rng.uniform(6, 15, size=n - 1))])
+        return R.cert_from_terms(dims, w, [rv() for _ in range(n)])
     raise ValueError(kind)
 
 
@@ -559,14 +751,15 @@ def run(ctx, shard):
     rng = ctx.rng
     name = shard['name']
     nsample = [0]
+    regime_shard = name.startswith('regime')
 
-    def register(rho, dims, producer, kind, cert=None):
+    def register(rho, dims, producer, kind, cert=None, extra=None):
         """count the case. With a certificate: ask the registry to verify it and issue the label first; without: the state
         must already carry a label issued by a contract on a numqi producer. Returns the (D,D) numpy matrix or None."""
         dims = tuple(dims)
         D = int(np.prod(dims))
         rho = to_numpy(rho).reshape(D, D)
-        if cert is not None and not reg.issue(rho, cert, producer):
+        if cert is not None and not reg.issue(rho, cert, producer, extra):
             return None
         lab = reg.lookup(rho, dims)
         if lab is None:
@@ -606,11 +799,14 @@ def run(ctx, shard):
             if dims[0] == dims[1]:
                 calls.append(('check_swap_witness', lambda: E.check_swap_witness(arg)))
             calls.append(('get_negativity', lambda: E.get_negativity(arg, dims)))
-            if R.gellmann_norm(rho) > 1e-6:
+            if R.gellmann_norm(rho) > 1e-9:
                 calls.append(('get_ppt_boundary', lambda: E.get_ppt_boundary(arg, dims)))
             if tuple(dims) == (2, 2):
                 calls += [('get_concurrence_2qubit', lambda: E.get_concurrence_2qubit(arg)), ('get_eof_2qubit', lambda: E.get_eof_2qubit(arg)),
                           ('get_gme_2qubit', lambda: E.get_gme_2qubit(arg))]
+        # the root-finding consumer of is_generalized_ppt: always in the regime shard, for every tenth state elsewhere
+        if len(dims) <= 3 and (regime_shard or rng.random() < 0.1) and R.gellmann_norm(rho) > 1e-9:
+            calls.append(('get_generalized_ppt_boundary', lambda: E.get_generalized_ppt_boundary(arg, dims)))
         return calls
 
     def closed_suite(rho, dims, real_input=False, arg=None):
@@ -874,7 +1070,8 @@ def run(ctx, shard):
             kw = dict(use_ppt=bool(use_ppt), use_boson=bool(use_boson))
             if len(states) > 2 and ci % 2 == 0:
                 call_symext(batch[:-1], dims, k, **kw)
-                call_symext(batch[-1], dims, k, return_info=True, **kw)
+                # a single state: as a 2-d array, or as a batch of ONE (3-d) whose answer must come back as a list of one
+                call_symext(batch[-1] if ci % 4 else batch[-1:], dims, k, return_info=True, **kw)
             else:
                 call_symext(batch, dims, k, **kw)
             # the closed-form criteria see the same states
@@ -945,16 +1142,16 @@ def run(ctx, shard):
         fam = []
         for d in (2, 3):
             th = 1 / d
-            for a in [-1.0, -0.5, 0.0, th / 2, th - 1e-3, th - 1e-9, th] + list(rng.uniform(-1, th, size=n // 3)):
+            for a in [-1.0, -0.5, 0.0, th / 2, th - 1e-3, th - 1e-6, th - 1e-9, th - 1e-12, th, 1e-9, -1e-9] + list(rng.uniform(-1, th, size=n // 3)):
                 fam.append((f'Werner({d},{a})', numqi.state.Werner(d, a), R.werner_cert(d, a)))
             th = 1 / (d + 1)
             lo = -1 / (d * d - 1)
-            for a in [lo, lo / 2, 0.0, th / 2, th - 1e-3, th - 1e-9, th] + list(rng.uniform(lo, th, size=n // 3)):
+            for a in [lo, lo / 2, 0.0, th / 2, th - 1e-3, th - 1e-6, th - 1e-9, th - 1e-12, th, 1e-9, -1e-9, lo + 1e-9] + list(rng.uniform(lo, th, size=n // 3)):
                 fam.append((f'Isotropic({d},{a})', numqi.state.Isotropic(d, a), R.isotropic_cert(d, a)))
         for a in (0, 1):
             fam.append((f'bes3x3_Horodecki1997({a})', numqi.state.get_bes3x3_Horodecki1997(a), R.horodecki3x3_cert(a)))
             fam.append((f'bes2x4_Horodecki1997({a})', numqi.state.get_bes2x4_Horodecki1997(a), R.horodecki2x4_cert(a)))
-        for qv in [0.0, 0.25, 0.5 - 1e-9, 0.5] + list(rng.uniform(0, 0.5, size=n // 3)):
+        for qv in [0.0, 1e-9, 0.25, 0.5 - 1e-6, 0.5 - 1e-9, 0.5 - 1e-12, 0.5] + list(rng.uniform(0, 0.5, size=n // 3)):
             fam.append((f'2qutrit_Antoine2022({qv})', numqi.state.get_2qutrit_Antoine2022(qv), R.antoine_cert(qv)))
         for label, rho, cert in fam:
             r = register(np.asarray(rho), cert.dims, 'named-family', label, cert)
@@ -978,7 +1175,7 @@ def run(ctx, shard):
         # (3) SeparableDensityMatrix at random parameters of several scales, single and batched
         for it in range(2 * n):
             dims = BIP[it % len(BIP)]
-            scale = [0.1, 1.0, 10.0][it % 3]
+            scale = [0.1, 1.0, 10.0, 1e-4, 1e-8][it % 5]  # tiny parameters: every coordinate map normalises its argument
             batch = None if it % 4 else 3
             ncha = [None, 2, 3][it % 3]  # num_cha=1 is not admissible (DiscreteProbability needs >=2 entries)
             ctx.set_case({'producer': 'SeparableDensityMatrix', 'dims': list(dims), 'scale': scale, 'batch': batch, 'num_cha': ncha})
@@ -996,6 +1193,40 @@ def run(ctx, shard):
                 r = register(o, dims, 'SeparableDensityMatrix.forward', f'SeparableDensityMatrix scale={scale} num_cha={ncha}')
                 if r is not None:
                     closed_suite(r, dims)
+            # evaluation modes and lifecycle (every forward below is seen by the producer contract: its output is labelled from the
+            # coordinates of the module that was CALLED). Same value with autograd recording / frozen parameters; a deepcopy with
+            # new parameters is a function of ITS parameters and leaves the original alone
+            if it % 2 == 0:
+                import copy
+                got = {}
+                with ctx.guard('SeparableDensityMatrix'):
+                    got['grad'] = to_numpy(mod().detach())
+                    for p in mod.parameters():
+                        p.requires_grad_(False)
+                    got['frozen'] = to_numpy(mod())
+                    for p in mod.parameters():
+                        p.requires_grad_(True)
+                    twin = copy.deepcopy(mod)
+                    with torch.no_grad():
+                        for p in twin.parameters():
+                            p.copy_(torch.tensor(rng.normal(size=tuple(p.shape)) * scale, dtype=p.dtype))
+                        got['twin'] = to_numpy(twin())
+                        got['again'] = to_numpy(mod())
+                if len(got) == 4:
+                    same = all(got[k].shape == out.shape and bool(np.array_equal(got[k], out)) for k in ('grad', 'frozen'))
+                    ctx.check(same, 'SeparableDensityMatrix/value-depends-on-evaluation-mode',
+                              'SeparableDensityMatrix(): autograd recording / frozen parameters / no_grad give different values',
+                              lambda: {'dims': list(dims), 'scale': scale, 'no_grad': out, 'grad': got['grad'], 'frozen': got['frozen']},
+                              point='lifecycle/SeparableDensityMatrix')
+                    ctx.check(bool(np.array_equal(got['again'], out)) and not np.allclose(got['twin'], out, rtol=0, atol=1e-12),
+                              'SeparableDensityMatrix/deepcopy-shares-state',
+                              'SeparableDensityMatrix: a deepcopy with new parameters changed the original or still returns the original state',
+                              lambda: {'dims': list(dims), 'scale': scale, 'original_before': out, 'original_after': got['again'], 'copy': got['twin']},
+                              point='lifecycle/SeparableDensityMatrix')
+                    for o in got['twin'].reshape(-1, D, D):
+                        r = register(o, dims, 'SeparableDensityMatrix.forward', f'deepcopy of SeparableDensityMatrix, new parameters scale={scale}')
+                        if r is not None:
+                            closed_suite(r, dims)
         # (4) AutodiffCHAREE: random parameters and a few L-BFGS steps towards an entangled target
         for it in range(max(2, n // 3)):
             dims = BIP[it % len(BIP)]
@@ -1032,6 +1263,125 @@ def run(ctx, shard):
             r = register(R.rebuild(cert), dims, 'CHABoundaryBagging.solve', 'cha-feasible-point', cert)
             if r is not None:
                 closed_suite(r, dims)
+    # ------------------------------------------------------------------ numerical / shape regimes and less prominent entry points
+    elif regime_shard:
+        n, reps = shard['n'], shard['reps']
+        all_dims = BIP + [EXTRA_DIMS[0]] + MULTI + EXTRA_DIMS[1:]
+        # (1) dim tuples in the other order of parties: (4,2) next to (2,4), (3,2,2) / (2,2,3) next to (2,3,2); standard kinds
+        for dims in EXTRA_DIMS:
+            for it in range(n):
+                kind = KINDS[it % len(KINDS)]
+                ctx.workload('random' if kind.startswith(('random', 'few', 'full')) else 'corner')
+                rho, cert = harness_state(dims, kind)
+                if rho is not None:
+                    drive_closed(rho, cert, kind in ('random-real', 'basis', 'max-mixed') and it % 2 == 0)
+                    if it % 9 == 0:
+                        api_surface(rho, dims)
+            ctx.hit('shape/party-order-variants')
+        # (2) numerical regime: next to I/D, nearly rank-deficient, within rounding distance of a pure product state; every dim tuple
+        ctx.workload('corner')
+        for dims in all_dims:
+            for kind in REGIME_KINDS:
+                for _ in range(reps):
+                    rho, cert = harness_state(dims, kind)
+                    if rho is not None:
+                        drive_closed(rho, cert)
+                        ctx.hit('regime/' + kind)
+        # (3) a dense matrix that equals a certified separable state only up to rounding noise (1e-14..1e-16 per entry, complex, NOT
+        # Hermitian): the kind of array every floating-point pipeline hands over. The certificate is verified on the noisy array
+        # (1e-12); the label records the noise amplitude (the tolerance of the square-root-type measure is derived from it)
+        for dims in all_dims:
+            D = int(np.prod(dims))
+            for j in range(2 * reps):
+                kind = (KINDS + REGIME_KINDS)[(3 * j + len(dims)) % (len(KINDS) + len(REGIME_KINDS))]
+                cert = gen_cert(rng, dims, kind)
+                amp = 10.0**(-rng.uniform(14, 16))
+                noisy = R.rebuild(cert) + (rng.uniform(-1, 1, size=(D, D)) + 1j * rng.uniform(-1, 1, size=(D, D))) * (amp / 2)
+                r = register(noisy, dims, 'harness-mixture', kind + ' + non-Hermitian rounding noise', cert, extra={'input_noise': amp})
+                if r is not None:
+                    closed_suite(r, dims)
+                    ctx.hit('regime/rounding-noise')
+        # (4) batches with ONE degenerate item (a pure product state = boundary of the state space, a state next to I/D) between generic
+        # ones: the contracts judge every item; in addition batched == per item == batch of one
+        ctx.workload('realistic')
+        for dims in BIP + [EXTRA_DIMS[0]]:
+            for _ in range(max(1, reps // 2)):
+                sts = [harness_state(dims, k)[0] for k in ('random', 'pure-product', 'random', 'near-max-mixed', 'full-rank')]
+                sts = [x for x in sts if x is not None and R.gellmann_norm(x) > 1e-9]
+                if len(sts) < 3:
+                    continue
+                ctx.set_case({'batch': 'one degenerate item between generic ones', 'dims': list(dims), 'items': len(sts)})
+                with ctx.guard('get_ppt_boundary'):
+                    bl, bu = E.get_ppt_boundary(np.stack(sts), dims)
+                    bl, bu = np.asarray(bl, dtype=np.float64), np.asarray(bu, dtype=np.float64)
+                    ok = bl.shape == (len(sts),) and bu.shape == (len(sts),)
+                    detail = []
+                    for i, x in enumerate(sts):
+                        l1, u1 = E.get_ppt_boundary(x, dims)
+                        l2, u2 = E.get_ppt_boundary(x[None], dims)
+                        ok2 = np.shape(l2) == (1,) and np.shape(u2) == (1,)
+                        if ok and ok2:
+                            for a, b in [(bl[i], l1), (bu[i], u1), (l2[0], l1), (u2[0], u1)]:
+                                ok2 = ok2 and bool(abs(float(a) - float(b)) <= 1e-9 * abs(float(b)) + 1e-12)
+                        ok = ok and ok2
+                        detail.append([float(np.ravel(l1)[0]), float(np.ravel(u1)[0])])
+                    ctx.check(ok, 'get_ppt_boundary/batched-differs-from-per-item',
+                              'get_ppt_boundary: a batch containing one degenerate item (or a batch of one) differs from the per-item calls',
+                              lambda: {'dims': list(dims), 'batched': [bl, bu], 'per_item': detail, 'states': np.stack(sts)},
+                              point='batch/one-degenerate-item')
+        # (5) pure-state measures on product vectors: tall, wide, a party of dimension 1, float64 / complex128, basis and generic
+        for dA, dB in [(1, 3), (3, 1), (2, 2), (2, 3), (3, 2), (3, 3), (2, 4), (4, 2), (3, 4)]:
+            for j in range(4 * reps):
+                real = j % 3 == 0
+                a = R.basis_vector(dA, j % dA) if j % 5 == 0 else R.random_unit(rng, dA, real)
+                b = R.basis_vector(dB, j % dB) if j % 7 == 0 else R.random_unit(rng, dB, real)
+                psi = np.outer(a, b)
+                if real:
+                    psi = psi.real.copy()
+                if j % 4 == 1:
+                    psi = np.asfortranarray(psi)
+                ctx.set_case({'pure product vector': [dA, dB], 'dtype': str(psi.dtype), 'c_contiguous': bool(psi.flags.c_contiguous)})
+                ctx.case('product-vector', [dA, dB], psi.astype(np.complex128), nontrivial=min(dA, dB) > 1)
+                with ctx.guard('get_concurrence_pure'):
+                    E.get_concurrence_pure(psi)
+                with ctx.guard('get_eof_pure'):
+                    E.get_eof_pure(psi) if j % 2 else E.get_eof_pure(psi, eps=1e-10)
+        # (6) SDP consumers: the naive extension test (both index kinds) and the measures that vanish on PPT / k-extendible states
+        kinds6 = ['random', 'pure-product', 'full-rank', 'near-max-mixed', 'rank-deficient', 'random-real', 'basis', 'dominant-term', 'max-mixed']
+
+        def sdp_call(gname, thunk):
+            n0 = len(slog)
+            with ctx.guard(gname):
+                try:
+                    thunk()
+                except (TypeError, AssertionError):
+                    # np.isinf(None) / 'ree > -1e-4' after a failed or inaccurate solve: the solver, not the criterion
+                    if len(slog) > n0 and (slog[-1]['value'] is None or slog[-1]['status'] != 'optimal'):
+                        ctx.inconclusive('sdp-status:' + str(slog[-1]['status']))
+                        return
+                    raise
+
+        for di, dims in enumerate([tuple(d) for d in shard['sdp_dims']]):
+            for j in range(shard['nsdp']):
+                if ctx.time_left() < 10:
+                    ctx.inconclusive('sdp-config-skipped-for-time')
+                    break
+                kind = kinds6[(j + di) % len(kinds6)]
+                rho = harness_state(dims, kind)[0]
+                if rho is None:
+                    continue
+                arg = rho.real.copy() if kind in ('random-real', 'basis', 'max-mixed') and j % 2 else rho
+                ctx.set_case(dict(reg.lookup(rho, dims) or {}, state_kind=kind, consumer='naive extension / SDP measures'))
+                sdp_call('is_ABk_symmetric_ext_naive', lambda: E.is_ABk_symmetric_ext_naive(arg, dims, 2 if (j % 3 or dims != (2, 2)) else 3,
+                                                                                            index_kind=['2d', '1d'][j % 2]))
+                sdp_call('get_linear_entropy_entanglement_ppt', lambda: E.get_linear_entropy_entanglement_ppt(arg, dims))
+                sdp_call('get_ppt_ree', lambda: E.get_ppt_ree(arg, dims[0], dims[1], use_tqdm=False))
+                # get_ABk_symmetric_extension_ree: every dims incl. dimA != dimB, use_boson, and use_ppt=True (k=1 only with use_ppt). Two genuine
+                # defects found here were repaired in numqi (fix: 47c6b06 wrong index map for dimA != dimB - get_ABk_symmetric_extension_ree(
+                # np.eye(6)/6, (3,2), 2) was 0.3526; fix: 662716d use_ppt=True raised TypeError for every input).
+                sdp_call('get_ABk_symmetric_extension_ree', lambda: E.get_ABk_symmetric_extension_ree(arg, dims, 2, use_boson=bool(j % 2)))
+                if j % 2 == 0:
+                    sdp_call('get_ABk_symmetric_extension_ree', lambda: E.get_ABk_symmetric_extension_ree(arg, dims, 1 + (j // 2) % 2, use_ppt=True))
     else:
         raise ValueError(name)
 
